@@ -304,6 +304,9 @@ def run(tier, seed):
     for cov, viols in outs:
         res.cov.merge(cov)
         res.violations.extend(viols)
+    h = 3 if tier == "quick" else 4
+    res.cov.cap("continuations: every event sequence of length <= %d (2 for the real-BO family) plus two fixed-policy "
+                "continuations of length <= 24 per crash point" % h)
     res.violations.sort(key=lambda v: (v.key, len(v.replay.get("history", [])), len(v.replay.get("continuation", []))))
     res.rule = ("crash points = every state of a digest-deduplicated BFS over event histories {suggest(bracket), "
                 "report(t), complete(t), fail(t)} of a real scheduler (cap per configuration) plus every prefix of 2-4 "
